@@ -25,7 +25,7 @@ Definition string_digits : str := s "0123456789".
 Definition char_in (c : N) (x : str) : bool := existsb (N.eqb c) x.
 Definition str_filter (f : N -> bool) (x : str) : str := filter f x.
 
-(** [os.path.join(a, b)], [os.path.join(*l)] (an empty argument list is
+(** [os.path.join(a, b)], [os.path.join] of a starred list (an empty argument list is
     Python's TypeError) *)
 Definition os_path_join (a b : str) : str := join2 a b.
 Definition os_path_join_star (l : list str) : str :=
@@ -36,7 +36,3 @@ Definition os_path_join_star (l : list str) : str :=
 
 (** [md5(x.encode("utf-8")).hexdigest()] *)
 Definition md5_hexdigest (h : str -> str) (x : str) : str := h x.
-
-(** the string an optional string stands for where a string is needed (None
-    there is Python's TypeError; SafePath.v reads it as "") *)
-Definition opt_text (o : option str) : str := opt_str o.
